@@ -197,6 +197,8 @@ type connRec struct {
 	cmds     map[uint32]*cmdRec
 	inflight []string
 
+	hookEnds []time.Duration // virtual instants at which a track.afterReply yield of this connection ended (under the events lock)
+
 	closing  atomic.Bool
 	closeSeq int64
 	closeAt  time.Duration
@@ -230,7 +232,8 @@ type keyModel struct {
 	// key that was still in flight when the untrack was sent (asynchronous OnTrack):
 	// the server may have applied them in either order.
 	ambiguous bool
-	since     int // updates received since the last acknowledged track of the key
+	since     int           // updates received since the last acknowledged track of the key
+	lastAt    time.Duration // virtual instant of the last of them
 	deltas    int
 	fulls     int
 	cached    int
@@ -400,6 +403,7 @@ func (cr *connRec) foldx(tr *truth, versioned, backendBase bool, report reporter
 		}
 		km.base = p.Version
 		km.since++
+		km.lastAt = f.At
 		raw, err := payloadOf(p, jsonProto)
 		if err != nil {
 			km.broken = true
@@ -877,7 +881,23 @@ func runCase(c *kit.Case) {
 		backendWrite(key, false)
 	}
 	pollRace.Store(&pr)
+	type revRec struct {
+		at, doneAt      time.Duration
+		keys            []string
+		users, excluded []string
+	}
+	var revMu sync.Mutex
+	var revs []*revRec
 	revoke := func(ks []string, users, exclude []string) {
+		rr := &revRec{at: w.Now(), doneAt: -1, keys: ks, users: users, excluded: exclude}
+		revMu.Lock()
+		revs = append(revs, rr)
+		revMu.Unlock()
+		defer func() {
+			revMu.Lock()
+			rr.doneAt = w.Now()
+			revMu.Unlock()
+		}()
 		addEvent("revoke")
 		note("revoke keys=%v users=%v exclude=%v", ks, users, exclude)
 		mgr.SharedPollRevokeKeys(channel, ks, users, exclude)
@@ -943,13 +963,16 @@ func runCase(c *kit.Case) {
 			}
 			evMu.Lock()
 			trackWins = append(trackWins, window{start, w.Seq()})
+			cr.hookEnds = append(cr.hookEnds, w.Now())
 			evMu.Unlock()
 		case "keyed.beforeEnqueue":
 			// between the unlocked first look at the key state (encoding, batch config callback)
 			// and the locked re-check + enqueue; no lock is held here
-			if cfg.FanoutSleep && cfg.PublishEnabled {
+			if cfg.FanoutSleep && (cfg.PublishEnabled || cfg.EpochMode) {
 				// deliveries that come through the memory broker run under its per-channel
-				// publish lock: yield there, never sleep (a mutex wait freezes the bubble)
+				// publish lock, and in epoch mode a publish runs under the scenario's own
+				// publish/epoch-change lock: yield there, never sleep (a mutex wait freezes
+				// the bubble)
 				kit.Yield(int(hashDelay(salt, point, hookN.Add(1), 40) / time.Millisecond))
 			} else if cfg.FanoutSleep {
 				n := hookN.Add(1)
@@ -1451,6 +1474,56 @@ func runCase(c *kit.Case) {
 				cls = "c25-key-never-updated-after-track-although-backend-is-newer"
 			}
 			extra["updates_since_last_track_reply"] = km.since
+			{
+				// A revocation that covers this user and key and ran while this connection was
+				// between sending its (last) track of the key and joining the keyed hub: the
+				// removal pushes go to the hub members of that moment, then every member is
+				// dropped from the hub, also one that joined in between and was never told.
+				var sentAt time.Duration = -1
+				cr.mu.Lock()
+				for _, rec := range cr.cmds {
+					if rec.kind != "track" || rec.at < sentAt {
+						continue
+					}
+					for _, rk := range rec.keys {
+						if rk == k {
+							sentAt = rec.at
+						}
+					}
+				}
+				cr.mu.Unlock()
+				evMu.Lock()
+				joinAt := time.Duration(-1)
+				for _, he := range cr.hookEnds {
+					if he >= sentAt && (joinAt < 0 || he < joinAt) {
+						joinAt = he
+					}
+				}
+				evMu.Unlock()
+				revMu.Lock()
+				for _, rr := range revs {
+					covers := false
+					for _, rk := range rr.keys {
+						covers = covers || rk == k
+					}
+					if len(rr.users) > 0 {
+						in := false
+						for _, u := range rr.users {
+							in = in || u == cr.user
+						}
+						covers = covers && in
+					}
+					for _, u := range rr.excluded {
+						covers = covers && u != cr.user
+					}
+					quietSince := km.since == 0 || (rr.doneAt >= 0 && km.lastAt <= rr.doneAt)
+					if covers && quietSince && sentAt >= 0 && joinAt >= 0 && rr.at <= joinAt && (rr.doneAt < 0 || rr.doneAt >= sentAt) {
+						cls = "c25-revocation-drops-connection-that-joins-the-hub-meanwhile-without-telling-it"
+						extra["revocation"] = fmt.Sprintf("keys=%v users=%v exclude=%v at %v; track of %s sent at %v, hub join at %v", rr.keys, rr.users, rr.excluded, rr.at, k, sentAt, joinAt)
+					}
+				}
+				revMu.Unlock()
+			}
 			c.Violation(cls, fmt.Sprintf("conn %d still tracks key %s but holds version %d (write %s, have=%v) while the newest value is version %d (write %s, %s at %v); traffic stopped %v ago (refresh interval %v)", cr.idx, k, km.ver, km.wid, km.have, cur.Ver, cur.ID, cur.Kind, cur.At, w.Now()-cur.At, interval), cfgDetail(cr, extra))
 		}
 	}
